@@ -44,7 +44,10 @@ def worker(args):
         if not bare and len(inj) > 1:
             # one outstanding request whose id some injected requests will duplicate
             steps.append(dict(op="sendIq", req="outstanding", id="dup-req-1", to="example.org"))
-        for (iid, typ, frm, payload) in inj:
+        for (iid, typ, frm, payload, *own) in inj:
+            if own:
+                # a request of our own with the same id is outstanding when the injected IQ arrives
+                steps.append(dict(op="sendIq", req="own-" + iid, id=iid, **own[0]))
             attrs = " id='%s'" % iid if iid is not None else ""
             if typ is not None:
                 attrs += " type='%s'" % typ
@@ -77,12 +80,26 @@ def worker(args):
             if e["tag"] == "iq" and e["type"] in ("result", "error"):
                 replies[e["id"]].append(e)
         done = [e for e in j if e["ev"] == "iq_done" and e["req"] == "outstanding"]
-        for (iid, typ, frm, payload) in inj:
+        own_done = collections.defaultdict(list)
+        for e in j:
+            if e["ev"] == "iq_done" and e["req"].startswith("own-"):
+                own_done[e["req"][4:]].append(e)
+        for (iid, typ, frm, payload, *own) in inj:
             stats["injected"] += 1
+            if own:
+                stats["id_collisions"] += 1
+                # the own request must not be completed by the peer's *request* (a completion by anything but a result / an error,
+                # or before any response was sent, is the same defect seen from the other side)
+                early = [d for d in own_done.get(iid, []) if d.get("kind") not in ("result", "error")]
+                if early:
+                    viol.append(("own-request-completed-by-a-request %s" % typ, "an outstanding request of the client was completed by an incoming IQ of type %s that carries the same id" % typ,
+                                 {"managers": mname, "iq": {"id": iid, "type": typ, "from": frm, "payload": payload[:300]}, "own_request": own[0], "completion": early[0]}))
             got = replies.get(iid if iid is not None else "", [])
             pname = payload_name(payload)
             sender = next((k for k, v in SENDERS.items() if v == frm), "?")
             w = {"managers": mname, "iq": {"id": iid, "type": typ, "from": frm, "payload": payload[:500]}, "replies": [g["xml"][:400] for g in got]}
+            if own:
+                w["own_outstanding_request_with_the_same_id"] = own[0]
             if iid is not None and iid.startswith("echo-"):
                 # a request directly followed by a response with the same sender and id (our reply bounced, or a confused peer):
                 # one reply for the pair - the one to the request
@@ -102,7 +119,7 @@ def worker(args):
             if typ in ("get", "set"):
                 stats["requests"] += 1
                 if len(got) == 0:
-                    viol.append(("request-unanswered %s %s %s [%s]" % (typ, pname, "own-or-server" if sender in ("server-nofrom", "server-domain", "own-bare", "own-full") else "other-entity", mname),
+                    viol.append(("request-unanswered %s %s %s [%s]%s" % (typ, pname, "own-or-server" if sender in ("server-nofrom", "server-domain", "own-bare", "own-full") else "other-entity", mname, " (id of an own outstanding request)" if own else ""),
                                  "IQ %s request %s from %s got no reply at all" % (typ, pname, sender), w))
                 elif len(got) > 1:
                     viol.append(("request-answered-%d-times %s %s [%s]" % (len(got), typ, pname, mname), "IQ request answered more than once", w))
@@ -178,6 +195,23 @@ def main(tier, replay=None):
         r.shuffle(ep)
         for k in range(0, len(ep), 60):
             sessions.append((cname, managers, bare, [x for pair in ep[k:k + 60] for x in pair]))
+        # id collisions: two clients of this library number their requests alike (qxmpp1, qxmpp2, ...), so a peer's request can carry
+        # the id of a request of ours that is still outstanding - to that very peer, to the server, or to someone else
+        if not bare:
+            col = []
+            cpay = [payloads[i][1] for i in range(0, len(payloads), max(1, len(payloads) // 6))][:6] + ["<ping xmlns='urn:xmpp:ping'/>", "<unknown xmlns='urn:example:unknown'/>", ""]
+            for ti, (to, senders) in enumerate([("example.org", ["server-domain", "server-nofrom", "contact"]), ("bob@example.org/phone", ["contact", "server-nofrom", "stranger"]),
+                                                (None, ["server-nofrom", "own-bare", "server-domain", "contact"]), (wire.BARE, ["own-bare", "server-nofrom"])]):
+                for sender in senders:
+                    for typ in ("get", "set"):
+                        for pi, p in enumerate(cpay):
+                            own = dict(type=r.choice(["get", "set"]), payload="<query xmlns='jabber:iq:version'/>")
+                            if to is not None:
+                                own["to"] = to
+                            col.append(("col-%s-%d-%s-%s-%d" % (cname, ti, sender, typ, pi), typ, SENDERS[sender], p, own))
+            r.shuffle(col)
+            for k in range(0, len(col), 70):
+                sessions.append((cname, managers, bare, col[k:k + 70]))
         # an IQ whose type is absent or not one of the four values makes the client close the stream ("unexpected element"):
         # allowed (DON'T-CARE), so each gets a session of its own and only "at most one reply, no crash" is required
         for i, (typ, frm, p) in enumerate(odd):
@@ -195,8 +229,8 @@ def main(tier, replay=None):
         stats.update(st)
     cov = {"evaluations": stats["injected"], "distinct_nontrivial": stats["answered_once"] + stats["responses_silent"],
            "rule": "IQs injected by a fake server into a real, connected QXmppClient: type {get,set,result,error,absent,garbage,empty} x payload (first child of each of the %d distinct IQ payload kinds of the fixtures, unknown, none, several) "
-                   "x sender (%s) x extension set {none, defaults, all bundled managers}, unique ids, plus an id duplicating an outstanding request, an absent id, and echo pairs (every payload kind as a request directly followed by a result / an error with the same sender and id: one reply for the pair); replies counted on the server transcript after an XEP-0198 fence, "
+                   "x sender (%s) x extension set {none, defaults, all bundled managers}, unique ids, plus an id duplicating an outstanding request, an absent id, id collisions (a request of the client's own with the same id is outstanding - to that peer, to the server, to the own account or to someone else - when the request arrives; the own request must not be completed by it), and echo pairs (every payload kind as a request directly followed by a result / an error with the same sender and id: one reply for the pair); replies counted on the server transcript after an XEP-0198 fence, "
                    "an idle settle and a second fence; distinct_nontrivial = requests answered exactly once + responses left unanswered" % (len(payloads), "6 senders" if tier != "quick" else "4 senders"),
            "observed": dict(stats), "payload_kinds": len(payloads), "sessions": len(sessions), "samples": [{"iq": "<iq id='inj-0-0' type='get' from='bob@example.org/phone'>%s</iq>" % payloads[3][1][:200]}]}
-    floors = {"requests": stats["requests"] > 100, "responses": stats["responses"] > 100, "answered_once": stats["answered_once"] > 0, "echo_pairs": stats["echo_pairs"] > 100}
+    floors = {"id_collisions": stats["id_collisions"] > 100, "requests": stats["requests"] > 100, "responses": stats["responses"] > 100, "answered_once": stats["answered_once"] > 0, "echo_pairs": stats["echo_pairs"] > 100}
     V.finish(cov, "exploration", ["counting happens on the fake server's transcript of a loopback TCP connection", "a reply produced later than the settle window (30 ms of silence after an XEP-0198 fence) would be missed"], floors)
